@@ -808,13 +808,15 @@ impl rodbus::server::RequestHandler for FixedHandler {
     }
 }
 
-fn one_exchange(port: u16) {
-    if let Ok(mut s) = TcpStream::connect(("127.0.0.1", port)) {
-        s.set_nodelay(true).ok();
-        let _ = s.write_all(&mbap(7, 1, &[3, 0, 1, 0, 2]));
-        let _ = read_frame(&mut s, 3000);
-        std::thread::sleep(Duration::from_millis(30));
-    }
+/// one request / reply; the connection is handed back so that it stays open until the log has been collected (the
+/// server's notice of the peer going away would otherwise race with the collection)
+fn one_exchange(port: u16) -> Option<TcpStream> {
+    let mut s = TcpStream::connect(("127.0.0.1", port)).ok()?;
+    s.set_nodelay(true).ok();
+    let _ = s.write_all(&mbap(7, 1, &[3, 0, 1, 0, 2]));
+    let _ = read_frame(&mut s, 3000);
+    std::thread::sleep(Duration::from_millis(30));
+    Some(s)
 }
 
 /// server role: one identical request served by a C-ABI server and by a Rust server at the same-named decode level
@@ -845,8 +847,9 @@ fn decode_levels_server(sink: &Sink, a: usize, f: usize, p: usize, via_set: bool
             std::thread::sleep(Duration::from_millis(30));
         }
         let _ = decode_lines();
-        one_exchange(port);
+        let conn = one_exchange(port);
         let lines = decode_lines();
+        drop(conn);
         ffi::rodbus_server_destroy(server);
         ffi::rodbus_runtime_destroy(rt);
         lines
@@ -868,8 +871,9 @@ fn decode_levels_server(sink: &Sink, a: usize, f: usize, p: usize, via_set: bool
             std::thread::sleep(Duration::from_millis(30));
         }
         let _ = decode_lines();
-        one_exchange(port);
+        let conn = one_exchange(port);
         let lines = decode_lines();
+        drop(conn);
         drop(handle);
         rt.shutdown_timeout(Duration::from_millis(500));
         lines
